@@ -82,6 +82,13 @@ def chain_list(draw, Lmax=8, nmax=12, for_mpo=False):
             src['coeff'] = src['coeff'] * 2
         pos = draw(st.integers(0, len(chains)))
         chains.insert(pos, src)
+    # fresh chains with coefficient exactly zero (they must not leave any trace in the graph), also at position 0
+    nzero = draw(st.sampled_from([0, 0, 1, 2]))
+    for _ in range(nzero):
+        z = draw(chain(L, charged, nsym, cstyle, arbitrary_q))
+        z['coeff'] = 0.0
+        pos = draw(st.sampled_from([0, 0, len(chains) // 2, len(chains)]))
+        chains.insert(pos, z)
     return {'L': L, 'chains': chains, 'charged': charged, 'cstyle': cstyle}
 
 
